@@ -589,21 +589,33 @@ def coq_case(g, queries, state):
     return "(%s, %s, %s)" % (coq_graph(g), qs, st)
 
 
-def coq_compare(ctx, name, items, shard=40, timeout=1500):
-    """items: list of coq_case strings. Returns list of mismatching indices or None on failure."""
+def coq_compare(ctx, name, items, shard=40, timeout=3000, budget=90000):
+    """items: list of coq_case strings. Returns list of mismatching indices or None on failure.
+    Items are grouped into shards by total size (at most `shard` items and `budget` characters each)."""
+    groups = []
+    cur, cur_len = [], 0
+    for idx, it in enumerate(items):
+        if cur and (len(cur) >= shard or cur_len + len(it) > budget):
+            groups.append(cur)
+            cur, cur_len = [], 0
+        cur.append(idx)
+        cur_len += len(it)
+    if cur:
+        groups.append(cur)
+
     def render(chunk):
+        grp = chunk[0]
         return ("Definition cases : list (graph * list (list N * (N * option N * list N)) * option (list N * option (list N))) := %s.\n"
-                "Eval vm_compute in (mismatches chk cases).\n" % vlib.coq_list(chunk))
-    outs, chunks = vlib.coq_eval_sharded(ctx, name, COQ_HEADER, items, render, shard=shard, timeout=timeout)
+                "Eval vm_compute in (mismatches chk cases).\n" % vlib.coq_list([items[i] for i in grp]))
+    outs, chunks = vlib.coq_eval_sharded(ctx, name, COQ_HEADER, groups, render, shard=1, timeout=timeout)
     mism = []
-    base = 0
     for (rc, o), ch in zip(outs, chunks):
         v = vlib.parse_coq_value(o) if rc == 0 else None
         if v is None:
             ctx.oblige("correspondence:model-eval", False, o[-2000:])
             return None
-        mism += [base + j for j in v]
-        base += len(ch)
+        if ch:
+            mism += [ch[0][j] for j in v]
     return mism
 
 
@@ -934,7 +946,7 @@ def run_braid_check(ctx, focus):
                 else:
                     stale.append((cname, "commit: unexpected result %s" % final["res"], replay))
         per_graph_obs.setdefault(gi, []).append((cname, sorted(obs_key, key=repr)))
-        coq_items.append(coq_case(g, queries, state_q))
+        coq_items.append(coq_case(g, sorted(queries, key=lambda q: (q[0], q[1], q[3])), state_q))
         coq_index.append(cname)
     # the same graph under different layouts/backends must give identical observations
     layout_bad = []
